@@ -6,6 +6,8 @@ import (
 	"encoding/binary"
 	"fmt"
 	"hash/fnv"
+	"sort"
+	"sync"
 	"sync/atomic"
 	"testing"
 	"time"
@@ -100,6 +102,27 @@ func TestC16(t *testing.T) {
 		}
 	}
 
+	// violations are collected and reported after the parallel phase, each class
+	// with its smallest (shortest, then lexicographically first) counterexample
+	type vrec struct {
+		what, replay string
+		count        int
+	}
+	var vmu sync.Mutex
+	viols := map[string]*vrec{}
+	violate := func(key, what, replay string) {
+		vmu.Lock()
+		v := viols[key]
+		if v == nil {
+			v = &vrec{what: what, replay: replay}
+			viols[key] = v
+		} else if len(replay) < len(v.replay) || (len(replay) == len(v.replay) && replay < v.replay) {
+			v.what, v.replay = what, replay
+		}
+		v.count++
+		vmu.Unlock()
+	}
+
 	one := func(c ref.EnvConfig) {
 		ck := c.Key()
 		h := fnv.New32a()
@@ -115,13 +138,13 @@ func TestC16(t *testing.T) {
 		var berr error
 		if p := enum.Try(func() { env, berr = envelope.BuildEnvelope(newDetReader(ck), ctx, payload, pubs, pbConfig(c)) }); p != nil {
 			acc.Case("seal", ck, true, "panic")
-			run.Violation("panic/seal", fmt.Sprintf("BuildEnvelope panicked on configuration %s: %v", ck, p), ck)
+			violate("panic/seal", fmt.Sprintf("BuildEnvelope panicked on configuration %s: %v", ck, p), ck)
 			return
 		}
 		if !c.InRange() {
 			if berr == nil {
 				acc.Case("seal-out-of-range", ck, true, "accepted")
-				run.Violation("accepts-out-of-range-key-index", fmt.Sprintf("BuildEnvelope accepted %s although a key index does not name a recipient", ck), ck)
+				violate("accepts-out-of-range-key-index", fmt.Sprintf("BuildEnvelope accepted %s although a key index does not name a recipient", ck), ck)
 			} else {
 				acc.Case("seal-out-of-range", ck, true, "rejected: "+berr.Error())
 			}
@@ -155,12 +178,12 @@ func TestC16(t *testing.T) {
 			var uerr error
 			if p := enum.Try(func() { got, res, uerr = envelope.UnlockEnvelope(ctx, env, privs) }); p != nil {
 				acc.Case("unseal", uk, mask != 0, "panic")
-				run.Violation("panic/unseal", fmt.Sprintf("UnlockEnvelope panicked on %s: %v", uk, p), uk)
+				violate("panic/unseal", fmt.Sprintf("UnlockEnvelope panicked on %s: %v", uk, p), uk)
 				continue
 			}
 			if uerr != nil {
 				acc.Case("unseal", uk, mask != 0, "error")
-				run.Violation("unseal-error", fmt.Sprintf("UnlockEnvelope returned error %q for an untouched sealed envelope %s (model: %d of %d shares reachable)", uerr, uk, wantShares, need), uk)
+				violate("unseal-error", fmt.Sprintf("UnlockEnvelope returned error %q for an untouched sealed envelope %s (model: %d of %d shares reachable)", uerr, uk, wantShares, need), uk)
 				continue
 			}
 			opened := res.GetSuccess()
@@ -171,24 +194,24 @@ func TestC16(t *testing.T) {
 			acc.Case("unseal", uk, mask != 0, oc)
 			switch {
 			case opened && !wantOpen:
-				run.Violation("opens-without-enough-shares", fmt.Sprintf("%s: unsealed although the offered keys reach only %d distinct shares and %d are needed", uk, wantShares, need), uk)
+				violate("opens-without-enough-shares", fmt.Sprintf("%s: unsealed although the offered keys reach only %d distinct shares and %d are needed", uk, wantShares, need), uk)
 			case !opened && wantOpen:
-				run.Violation("fails-with-enough-shares", fmt.Sprintf("%s: not unsealed although the offered keys reach %d distinct shares and %d are needed (reported available=%d)", uk, wantShares, need, res.GetSharesAvailable()), uk)
+				violate("fails-with-enough-shares", fmt.Sprintf("%s: not unsealed although the offered keys reach %d distinct shares and %d are needed (reported available=%d)", uk, wantShares, need, res.GetSharesAvailable()), uk)
 			}
 			if opened && !bytes.Equal(got, payload) {
-				run.Violation("wrong-payload", fmt.Sprintf("%s: unsealing returned %d bytes that differ from the sealed payload", uk, len(got)), uk)
+				violate("wrong-payload", fmt.Sprintf("%s: unsealing returned %d bytes that differ from the sealed payload", uk, len(got)), uk)
 			}
 			if !opened && len(got) != 0 {
-				run.Violation("payload-without-success", fmt.Sprintf("%s: %d payload bytes returned although success=false", uk, len(got)), uk)
+				violate("payload-without-success", fmt.Sprintf("%s: %d payload bytes returned although success=false", uk, len(got)), uk)
 			}
 			if int(res.GetSharesAvailable()) != wantShares {
-				run.Violation("report/shares-available", fmt.Sprintf("%s: shares_available=%d, the offered keys reach %d", uk, res.GetSharesAvailable(), wantShares), uk)
+				violate("report/shares-available", fmt.Sprintf("%s: shares_available=%d, the offered keys reach %d", uk, res.GetSharesAvailable(), wantShares), uk)
 			}
 			if res.GetSharesNeeded() != need {
-				run.Violation("report/shares-needed", fmt.Sprintf("%s: shares_needed=%d, want threshold+1=%d", uk, res.GetSharesNeeded(), need), uk)
+				violate("report/shares-needed", fmt.Sprintf("%s: shares_needed=%d, want threshold+1=%d", uk, res.GetSharesNeeded(), need), uk)
 			}
 			if !eqU32(res.GetUnlockedGrantIndexes(), wantGrants) {
-				run.Violation("report/unlocked-grants", fmt.Sprintf("%s: unlocked_grant_indexes=%v, the offered keys can decrypt grants %v", uk, res.GetUnlockedGrantIndexes(), wantGrants), uk)
+				violate("report/unlocked-grants", fmt.Sprintf("%s: unlocked_grant_indexes=%v, the offered keys can decrypt grants %v", uk, res.GetUnlockedGrantIndexes(), wantGrants), uk)
 			}
 		}
 	}
@@ -208,6 +231,18 @@ func TestC16(t *testing.T) {
 			}
 		}
 	})
+
+	var vkeys []string
+	for k := range viols {
+		vkeys = append(vkeys, k)
+	}
+	sort.Strings(vkeys)
+	for _, k := range vkeys {
+		for i := 0; i < viols[k].count; i++ {
+			run.Violation(k, viols[k].what, viols[k].replay)
+		}
+		acc.Sample(map[string]any{"violation": k, "smallest_counterexample": viols[k].replay, "cases": viols[k].count})
+	}
 
 	ex := ref.EnvConfig{NKeys: 2, Threshold: 1, Total: 0, Grants: []ref.EnvGrant{{ShareCount: 1, Idx: []uint32{0}}, {ShareCount: 2, Idx: []uint32{0, 1}}}}
 	g, n := ex.Reach(2)
